@@ -41,7 +41,7 @@ def cq_s(s):
     return "[" + "; ".join(str(ord(c)) for c in s) + "]"
 
 
-def make_frame(rng, ctx_rows):
+def make_frame(rng, ctx_rows, allow_collisions=True):
     inp = ao.mk_input(rng, max_rows=ctx_rows, recipes=fo.LAYOUTS)
     if inp.get("history_failed") or inp["built"][0] != "ok":
         return None
@@ -55,11 +55,22 @@ def make_frame(rng, ctx_rows):
         index = pd.Index([rng.choice(["a", "b", "c", "dd"]) for _ in range(n)])
     else:
         index = pd.Index(list(range(10, 10 + n)), name="obj_id")
-    nf = NestedFrame({"x": list(range(n)), "y": pd.array([rng.choice([0.5, None, 2.5]) for _ in range(n)], dtype=pd.ArrowDtype(pa.float64()))}, index=index)
-    nf["n1"] = pd.Series(inp["arr"], index=index, name="n1")
-    rows2 = gen.gen_rows(rng, [("s", "string"), ("k", "int64")], n, max_len=3)
-    nf["n2"] = pd.Series(type(inp["arr"])(pa.array(rows2, type=gen.struct_type([("s", "string"), ("k", "int64")]))), index=index, name="n2")
-    return nf, inp, ik
+    names1 = [nm for nm, _ in inp["schema"]]
+    # names: plain / colliding across layers (a base column and a field of the OTHER nest named like a field of n1) /
+    # legal names with spaces and punctuation (no '.', no backtick)
+    mode = rng.choice(["plain", "plain", "collide", "punct"]) if allow_collisions else rng.choice(["plain", "punct"])
+    nm = {"x": "x", "y": "y", "n1": "n1", "n2": "n2", "s": "s", "k": "k", "mode": mode}
+    if mode == "collide":
+        nm["y"] = names1[0]
+        nm["s"] = names1[-1]
+    elif mode == "punct":
+        nm.update({"x": "peak flux (mJy)", "y": "k=v", "n1": "light curve", "n2": "n,2;{z}", "s": "s t"})
+    nf = NestedFrame({nm["x"]: list(range(n)), nm["y"]: pd.array([rng.choice([0.5, None, 2.5]) for _ in range(n)], dtype=pd.ArrowDtype(pa.float64()))}, index=index)
+    nf[nm["n1"]] = pd.Series(inp["arr"], index=index, name=nm["n1"])
+    sch2 = [(nm["s"], "string"), (nm["k"], "int64")]
+    rows2 = gen.gen_rows(rng, sch2, n, max_len=3)
+    nf[nm["n2"]] = pd.Series(type(inp["arr"])(pa.array(rows2, type=gen.struct_type(sch2))), index=index, name=nm["n2"])
+    return nf, inp, ik, nm
 
 
 def col_pylist(nf, c):
@@ -76,10 +87,11 @@ def generate(ctx):
     try:
         for i in range(ctx.budget(130, 1100)):
             kind = ["full", "plain_arrow", "select", "select", "select", "full_and_partial", "foreign", "select_reject"][i % 8]
-            made = make_frame(rng, 6 if ctx.tier == "quick" else 10)
+            made = make_frame(rng, 6 if ctx.tier == "quick" else 10, allow_collisions=kind != "select_reject")
             if made is None:
                 continue
-            nf, inp, ik = made
+            nf, inp, ik, nm = made
+            N1, N2, BX, BY = nm["n1"], nm["n2"], nm["x"], nm["y"]
             n = len(nf)
             cfg = {"row_group_size": rng.choice([None, 1, 2, max(1, n)]), "compression": rng.choice(["snappy", "gzip", "none"]),
                    "use_dictionary": rng.random() < 0.5}
@@ -87,7 +99,7 @@ def generate(ctx):
             via_buffer = rng.random() < 0.3
             path = os.path.join(tmpdir, f"f{i}.parquet")
             before = fo.snapshot(nf)
-            names1 = list(nf["n1"].nest.fields)
+            names1 = list(nf[N1].nest.fields)
 
             def write():
                 if via_buffer:
@@ -98,7 +110,7 @@ def generate(ctx):
                     nf.to_parquet(path, **cfg)
             w = attempt(write)
             term, impl_repr, nontrivial = "[true; false; true; true]", "", any(r for r in inp["rows"] if r and any(len(v) for v in r.values()))
-            args = {"cfg": cfg, "index": ik, "via_buffer": via_buffer}
+            args = {"cfg": cfg, "index": ik, "via_buffer": via_buffer, "names": nm}
             if w[0] == "err":
                 impl_repr = f"to_parquet raised {w[1]}"
             elif fo.snapshot(nf) != before:
@@ -112,7 +124,7 @@ def generate(ctx):
                     assert len(back) == n
                     for c in nf.columns:
                         assert col_pylist(back, c) == col_pylist(nf, c), f"column {c} differs"
-                    for c in ("n1", "n2"):
+                    for c in (N1, N2):
                         assert isinstance(back.dtypes[c], NestedDtype), f"{c} is not nested after reading"
                         assert [(f.name, str(f.type.value_type)) for f in back.dtypes[c].pyarrow_dtype] == \
                                [(f.name, str(f.type.value_type)) for f in nf.dtypes[c].pyarrow_dtype], f"dtype of {c} differs"
@@ -129,33 +141,33 @@ def generate(ctx):
                     for f in t.schema:
                         assert not (f.metadata or {}), f"field metadata on {f.name}"
                         assert not isinstance(f.type, pa.ExtensionType)
-                    for c in ("n1", "n2"):
+                    for c in (N1, N2):
                         ty = t.schema.field(c).type
                         assert pa.types.is_struct(ty) and all(pa.types.is_list(f.type) for f in ty), f"{c} is not a struct of lists"
                         rows = t[c].to_pylist()
                         assert repr(rows) == repr(nf[c].array.chunked_array.to_pylist()), f"content of {c} differs for plain pyarrow"
                         for r_ in rows:
                             assert r_ is None or len({len(v) for v in r_.values()}) == 1, "lists of unequal length"
-                    assert t["x"].to_pylist() == list(range(n))
+                    assert t[BX].to_pylist() == list(range(n))
                     return True
                 r = attempt(run_p)
                 term, impl_repr = f"[true; {cq_bool(r[0] == 'ok')}; true; true]", str(r)
             elif kind in ("select", "full_and_partial", "select_reject"):
                 # a selection: each nest either in full or through some of its fields (never both, unless that is the point), order shuffled
-                sel = [c for c in ["x", "y"] if rng.random() < 0.6]
-                for nest, fields in (("n1", names1), ("n2", ["s", "k"])):
+                sel = [c for c in [BX, BY] if rng.random() < 0.6]
+                for nest, fields in ((N1, names1), (N2, [nm["s"], nm["k"]])):
                     mode = rng.choice(["skip", "full", "partial", "partial"])
                     if mode == "full":
                         sel.append(nest)
                     elif mode == "partial":
                         sel += [f"{nest}.{f}" for f in rng.sample(fields, rng.randint(1, len(fields)))]
                 if not sel:
-                    sel = [f"n1.{names1[0]}"]
+                    sel = [f"{N1}.{names1[0]}"]
                 rng.shuffle(sel)
                 if kind == "full_and_partial":
-                    sel = [c for c in sel if c.split(".")[0] != "n1"] + ["n1", f"n1.{names1[0]}"]
+                    sel = [c for c in sel if c.split(".")[0] != N1] + [N1, f"{N1}.{names1[0]}"]
                     rng.shuffle(sel)
-                reject = ["n2"] if kind == "select_reject" else None
+                reject = [N2] if kind == "select_reject" else None
                 full = read_parquet(path)
 
                 def run_s():
@@ -179,6 +191,9 @@ def generate(ctx):
                             outs.append(f"(OStruct {cq_s(str(c))} {cq_list(cq_s(f) for f in fields)})" if partial else f"(OFlat {cq_s(str(c))})")
                             # same values as in the full read, field by field
                             rows_b = back[c].array.chunked_array.to_pylist() if hasattr(back[c].array, "chunked_array") else back[c].array._pa_array.to_pylist()
+                            if not hasattr(full[c].array, "chunked_array"):
+                                ok_vals = False          # the FULL read did not return a nested column
+                                continue
                             rows_f = full[c].array.chunked_array.to_pylist()
                             for rb, rf in zip(rows_b, rows_f):
                                 if rf is None:
@@ -230,16 +245,27 @@ def generate(ctx):
                 else:
                     variant = "wellformed"
                     col = pa.chunked_array([pa.array(rows, type=st)], type=st)
-                pq.write_table(pa.table({"x": pa.array(range(n)), "n": col}), path, row_group_size=max(1, rng.randint(1, max(1, n))))
+                # the foreign column carries the SAME name as the frame's own nested column
+                pq.write_table(pa.table({"x": pa.array(range(n)), N1: col}), path, row_group_size=max(1, rng.randint(1, max(1, n))))
 
                 def run_f():
                     back = read_parquet(path)
                     if variant == "wellformed":
-                        assert isinstance(back.dtypes["n"], NestedDtype)
-                        assert repr(back["n"].array.chunked_array.to_pylist()) == repr(col.to_pylist())
+                        assert isinstance(back.dtypes[N1], NestedDtype)
+                        assert repr(back[N1].array.chunked_array.to_pylist()) == repr(col.to_pylist())
                     elif variant == "nonlist":
-                        assert not isinstance(back.dtypes["n"], NestedDtype), "a struct with a non-list field became nested"
+                        assert not isinstance(back.dtypes[N1], NestedDtype), "a struct with a non-list field became nested"
                         assert [int(v) for v in back["x"]] == list(range(n))
+                        # a partial load naming the non-list member is legal (the column is then not nested) ...
+                        part = read_parquet(path, columns=["x", f"{N1}.a"])
+                        assert len(part) == n
+                        # ... and what was read before does not change what a later read of ANOTHER file returns
+                        path2 = path + ".own.parquet"
+                        nf.to_parquet(path2)
+                        own = read_parquet(path2)
+                        os.remove(path2)
+                        assert isinstance(own.dtypes[N1], NestedDtype), "after reading a foreign file the frame's own nested column is no longer read as nested"
+                        assert col_pylist(own, N1) == col_pylist(nf, N1)
                     return True
                 r = attempt(run_f)
                 ok = (r[0] == "ok") if variant != "ragged" else (r[0] == "err")
